@@ -21,7 +21,9 @@ Representable(N, top) ==
         /\ N[x].k = "text" => N[x].t # <<>> /\ ~IsText(N, PrevNorm(N, x))
         /\ N[x].k = "comm" => NoDoubleDash(N[x].t) /\ (N[x].t = <<>> \/ N[x].t[Len(N[x].t)] # 45)
         /\ N[x].k = "pi" => NoPiEnd(N[x].t) /\ N[x].ns = "" /\ (N[x].d => N[x].t # <<>> /\ N[x].t[1] \notin {32, 9, 10, 13})
-        /\ N[x].k = "nsn" => N[x].ln # "xml" /\ N[x].u # XmlNs /\ (N[x].u = "" => N[x].ln = "")
+        \* (a prefix other than xml bound to the XML namespace is not namespace-well-formed, but the crate reads and
+        \* writes such declarations, so it is part of what it can express; the default namespace cannot be the XML one)
+        /\ N[x].k = "nsn" => N[x].ln # "xml" /\ (N[x].u = XmlNs => N[x].ln # "") /\ (N[x].u = "" => N[x].ln = "")
         \* an xml:id value is normalised by every parse (xml:id 1.0, section 4): only normalised values can be expressed
         /\ (N[x].k = "attr" /\ N[x].ns = XmlNs /\ N[x].ln = "id") => NormId(N[x].t) = N[x].t
     /\ N[top].k \in {"doc", "elem"}
